@@ -53,7 +53,6 @@ ASSUMPTIONS = [
     "the user is authenticated by NoAuthn; HTTP is an in-process dispatcher (status, body, content-type)",
 ]
 
-ALL_RTS = ["code", "id_token", "code id_token"]
 MODES = [None, "query", "fragment", "form_post"]
 TRANSPORTS = ["plain", "request", "request_uri", "par"]
 SCOPES = ["profile", "email", "address", "phone", "offline_access"]
@@ -76,7 +75,9 @@ def tables():
     def v(x):
         return list(x() if callable(x) else x)
     t = {
-        "rt": v(c_az.Authorization._supports["response_types_supported"]),
+        # every response type both halves can be configured with, not only the `_supports` default
+        "rt": list(c_def.DEFAULT_RESPONSE_MODE.keys()),
+        "rt_default": v(c_az.Authorization._supports["response_types_supported"]),
         "rm": v(c_az.Authorization._supports["response_modes_supported"]),
         "auth": v(c_at.AccessToken._supports["token_endpoint_auth_methods_supported"]),
         "idt_sig": v(c_claims.Claims._supports["id_token_signing_alg_values_supported"]),
@@ -111,9 +112,12 @@ def py_limits(c, offline, T, claims=False):
         out.append("mode")
     if not c.get("op_explicit", True) and c["rt"] != "code":
         out.append("shadow")
-    if T["sig_fam"].get(c["idt_sig"]) == "HS":
+    redeems = "code" in rts and "token" not in rts        # the RP goes to the token endpoint
+    if T["sig_fam"].get(c["idt_sig"]) == "HS" and ("id_token" in rts or redeems):
         out.append("hs_idt")
-    has_at = "code" in rts
+    if c.get("idt_enc") and ("id_token" in rts or redeems):
+        out.append("idt_enc")
+    has_at = c["rt"] != "id_token"
     if has_at and c["ui_sig"] and T["sig_fam"].get(c["ui_sig"]) == "HS":
         out.append("hs_ui")
     if has_at and c["ui_enc"] and T["enc_fam"].get(c["ui_enc"][0]) == "KW" and c["secret_len"] not in (16, 24, 32):
@@ -194,6 +198,7 @@ def run_job(job):
         st = obs["rp_state"]
         has_token = fin.get("token") is not None
         rec["has_token"] = has_token
+        rec["at_from"], rec["idt_from"] = obs["access_token_from"], obs["id_token_from"]
         # ---- artefacts
         rec["delivery"] = obs["delivery"]
         rec["delivered_to"] = obs["delivered_to"]
@@ -238,8 +243,14 @@ def run_job(job):
         # ---- views
         views = {}
         idt = fin.get("id_token") or {}
-        views["id_token"] = {"client": one(idt.get("aud")), "sub": idt.get("sub"), "nonce": idt.get("nonce"),
-                             "idt_exp": idt.get("exp")}
+        if fin.get("id_token") is not None:
+            views["id_token"] = {"client": one(idt.get("aud")), "sub": idt.get("sub"), "nonce": idt.get("nonce"),
+                                 "idt_exp": idt.get("exp")}
+        # hashes in the ID Token that arrived in the authorization response, and what arrived with it
+        k0, h0, p0 = jose_shape(obs["delivered"].get("id_token"))
+        rec["front_id_token"] = ({"hashes": [h for h in ("c_hash", "at_hash") if h in (p0 or {})],
+                                  "with": [a for a in ("code", "access_token") if a in obs["delivered"]],
+                                  "shape": k0} if "id_token" in obs["delivered"] else None)
         vidt = st.get("__verified_id_token") or {}
         rp_sub = st.get("sub") or vidt.get("sub")
         views["rp"] = {"client": obs["rp_client_id"], "sub": rp_sub, "scope": scope_list(st.get("scope")),
@@ -247,7 +258,8 @@ def run_job(job):
         rec["rp_sub_bound"] = rp_sub in (pair.rp.get_context().cstate._map or {})
         rec["rp_nonce_sent"] = obs.get("rp_nonce")
         if has_token:
-            tr = obs.get("token_response") or {}
+            # the response that carried the access token: the token response, or the authorization response
+            tr = (obs.get("token_response") or {}) if rec["at_from"] == "token" else obs["delivered"]
             views["token_response"] = {"scope": scope_list(tr.get("scope")),
                                        "at_exp": (rec["now_op"] + int(tr["expires_in"])) if "expires_in" in tr else None}
             ui = fin.get("userinfo") or {}
@@ -291,7 +303,8 @@ def pair_opt(x):
 
 TR = {"plain": "TPlain", "request": "TRequest", "request_uri": "TRequestUri", "par": "TPar"}
 PLACE = {"rp_init": "RpInit", "par": "Par", "authz_parse": "AuthzParse", "authz_process": "AuthzProcess",
-         "token": "TokenEp", "userinfo": "UserinfoEp"}
+         "rp_finalize": "RpFinalize", "token": "TokenEp", "userinfo": "UserinfoEp"}
+SRC = {None: "SrcNone", "authz": "SrcAuthz", "token": "SrcToken"}
 
 
 def coq_cfg(c):
@@ -322,22 +335,25 @@ def coq_views_case(rec):
     vs = rec["views"]
     sess = "(mkSession %s %s %s %s %s %s)" % (
         coq_str(s["client"]), coq_str(s["sub"]), coq_list([coq_str(x) for x in s["scope"]], "pystr"),
-        s_opt(s["nonce"]), coq_z(s["at_exp"] if s["at_exp"] is not None else 0), coq_z(s["idt_exp"]))
+        s_opt(s["nonce"]), coq_z(s["at_exp"] if s["at_exp"] is not None else 0),
+        coq_z(s["idt_exp"] if s["idt_exp"] is not None else 0))
 
     def vo(name):
         return "(Some %s)" % coq_view(vs[name]) if name in vs else "(@None view)"
     ops = {"client": s["client"], "sub": s["sub"], "scope": s["scope"], "nonce": s["nonce"],
            "at_exp": s["at_exp"], "idt_exp": s["idt_exp_recorded"]}
-    return "(mkViewsCase %s %s %s %s %s %s %s %s %s %s %s %s)" % (
-        coq_bool(rec["has_token"]), coq_bool(rec["cell"]["at_jwt"]), sess, coq_z(rec["now_op"]), coq_z(rec["now_rp"]),
-        coq_view(ops), vo("token_response"), vo("introspection"), vo("userinfo"), coq_view(vs["id_token"]), coq_view(vs["rp"]),
-        vo("jwt_access_token"))
+    return "(mkViewsCase %s %s %s %s %s %s %s %s %s %s %s %s %s)" % (
+        SRC[rec["at_from"]], SRC[rec["idt_from"]], coq_bool(rec["cell"]["at_jwt"]), sess, coq_z(rec["now_op"]),
+        coq_z(rec["now_rp"]), coq_view(ops), vo("token_response"), vo("introspection"), vo("userinfo"), vo("id_token"),
+        coq_view(vs["rp"]), vo("jwt_access_token"))
 
 
 def views_case_ok(rec):
     s = rec.get("session") or {}
+    has_idt = rec.get("idt_from") is not None
     return (all(isinstance(s.get(k), str) for k in ("client", "sub")) and isinstance(s.get("scope"), list)
-            and isinstance(s.get("idt_exp"), int) and isinstance(s.get("idt_exp_recorded"), int)
+            and rec.get("at_from") in SRC and rec.get("idt_from") in SRC
+            and (not has_idt or (isinstance(s.get("idt_exp"), int) and isinstance(s.get("idt_exp_recorded"), int)))
             and (not rec["has_token"] or isinstance(s.get("at_exp"), int)))
 
 
@@ -373,6 +389,9 @@ def finding_key(rec, T):
         ("par-jwt-audience", c["transport"] == "par" and c["auth"] in JWT_METHODS, ("par",), ("Not for me",)),
         ("par-claims-not-parsed", c["transport"] == "par" and rec["claims"] is not None, ("authz_process",),
          ("'str' object has no attribute 'get'", "KeyError: 'response_mode'")),
+        # the provider never encrypts ID Tokens; since 821e9f5 the RP insists on the encryption it registered
+        ("idt-enc-not-applied", bool(c["idt_enc"]) and expects(c["rt"])[1], ("rp_finalize",),
+         ('Expected "alg" to be "%s"' % (c["idt_enc"][0] if c["idt_enc"] else ""),)),
         ("mode-refused-by-provider", c["rt"] == "code" and c["rm"] == "fragment", ("authz_process",), ("wrong response_mode",)),
         ("mode-refused-by-rp", c["rt"] == "code" and c["rm"] == "fragment", ("rp_init",), ("Could not pick a redirect_uri",)),
     ]
@@ -382,6 +401,14 @@ def finding_key(rec, T):
     if 'wrong type of value for "redirect_uri"' in detail:
         return "redirect-uri-not-a-string"          # the repaired pick_redirect_uri defect (37f56f5)
     return "fail:%s" % where
+
+
+def expects(rt):
+    """(access token expected, ID Token expected, code redeemed at the token endpoint) for a response type, as THIS
+    relying party uses it: it redeems the code only when the authorization response brings no access token"""
+    w = rt.split(" ")
+    redeems = "code" in w and "token" not in w
+    return ("token" in w or redeems, "id_token" in w or redeems, redeems)
 
 
 def expected_default_delivery(rt):
@@ -424,14 +451,29 @@ def oracle(ctx, rec, T):
         ctx.violation("redirect-uri-wrong-slot", "mode %s but the redirect_uri %r is not the RP's %s callback %r" % (
             want_mode, rec["rp_redirect_uri"], want_mode, cbs[want_mode]), rec)
     use = rec.get("rp_use") or {}
+    want_at, want_idt, redeems = expects(c["rt"])
+    if want_at != rec["has_token"] or want_idt != (rec.get("idt_from") is not None):
+        ctx.violation("artefacts", "response_type %s: access token %s, ID Token %s at the relying party (expected %s / %s)" % (
+            c["rt"], rec.get("at_from"), rec.get("idt_from"), want_at, want_idt), rec)
+    # an ID Token that arrives with a code carries c_hash, with an access token at_hash (OIDC core 3.3.2.11)
+    fi = rec.get("front_id_token")
+    if fi is not None and fi["shape"] == "jws":
+        for art, h in (("code", "c_hash"), ("access_token", "at_hash")):
+            if art in fi["with"] and h not in fi["hashes"]:
+                ctx.violation("idt-hash-missing", "response_type %s: the ID Token in the authorization response arrives with "
+                              "%s but carries no %s" % (c["rt"], art, h), rec)
     # ID Token: signed with the algorithm the RP registered; encrypted when the RP registered encryption
     reg_alg = use.get("id_token_signed_response_alg")
-    if reg_alg and rec["id_token_verified_alg"] != reg_alg:
+    if rec.get("idt_from") is None:
+        reg_alg_check = False
+    else:
+        reg_alg_check = True
+    if reg_alg_check and reg_alg and rec["id_token_verified_alg"] != reg_alg:
         ctx.violation("idt-alg", "ID Token signed with %r, the RP registered %r" % (rec["id_token_verified_alg"], reg_alg), rec)
     if c["idt_sig"] in T["idt_sig"] and reg_alg != c["idt_sig"]:
         ctx.violation("idt-alg-negotiation", "the RP is configured with %r (advertised by the provider) but registered %r"
                       % (c["idt_sig"], reg_alg), rec)
-    if use.get("id_token_encrypted_response_alg"):
+    if use.get("id_token_encrypted_response_alg") and rec.get("idt_from") is not None:
         h = rec.get("id_token_outer_header") or {}
         if rec["id_token_shape"] != "jwe":
             ctx.violation("idt-enc-not-applied", "the RP registered id_token_encrypted_response_alg=%s/%s but the "
@@ -460,7 +502,7 @@ def oracle(ctx, rec, T):
         if rec.get("refresh_token_shape") is not None and (rec["refresh_token_shape"] == "jws") != bool(c["rf_jwt"]):
             ctx.violation("refresh-token-format", "refresh token is %s, provider configured for %s" % (
                 rec["refresh_token_shape"], "JWT" if c["rf_jwt"] else "opaque"), rec)
-        if "offline_access" in rec["scope"] and rec.get("refresh_token_shape") is None:
+        if "offline_access" in rec["scope"] and redeems and rec.get("refresh_token_shape") is None:
             ctx.violation("no-refresh-token", "offline_access granted but no refresh token in the token response", rec)
         if rec.get("introspection_active") is not True:
             ctx.violation("introspection-inactive", "the access token just issued is not reported active", rec)
@@ -487,18 +529,19 @@ def oracle(ctx, rec, T):
                 if x != y:
                     sig = "views:%s" % f
                     if (f == "idt_exp" and "op_session" in (a, b) and vs["op_session"].get("idt_exp") == 0
-                            and not rec["has_token"]):
+                            and rec.get("idt_from") == "authz"):     # ID Token minted at the authorization endpoint
                         sig = "idt-exp-unrecorded"     # the session database holds expires_at = 0 for this ID Token
                     ctx.violation(sig, "%s differs between views: %s has %r, %s has %r (cell %s, scope %s)" % (
                         f, a, vs[a].get(f), b, vs[b].get(f), json.dumps(cellname, default=str), rec["scope"]), rec)
     # required views are present
-    need = ["id_token", "rp"] + (["token_response", "userinfo", "introspection"] if rec["has_token"] else [])
+    need = ["rp"] + (["id_token"] if want_idt else []) + (["token_response", "userinfo", "introspection"] if rec["has_token"] else [])
     if rec["has_token"] and c["at_jwt"]:
         need.append("jwt_access_token")
     for n in need:
         if n not in rec["views"]:
             ctx.violation("view-missing", "no %s view in a completed flow" % n, rec)
-    for n, fs in (("id_token", ("client", "sub", "nonce", "idt_exp")), ("rp", ("client", "sub", "scope", "nonce", "idt_exp"))):
+    for n, fs in ((("id_token", ("client", "sub", "nonce", "idt_exp")),) if want_idt else ()) + (
+            ("rp", ("client", "sub", "scope", "nonce") + (("idt_exp",) if want_idt else ()) + (("at_exp",) if want_at else ())),):
         for f in fs:
             if rec["views"].get(n, {}).get(f) is None:
                 ctx.violation("view-field-missing", "%s view has no %s" % (n, f), rec)
@@ -581,6 +624,7 @@ def pairwise_rows(rng, T, want_limit_free=True, max_rows=400):
     def limit_free(r):
         c = base_cell(rt=r["rt"], rm=r["rm"], auth=r["auth"], transport=r["transport"], secret_len=r["secret_len"],
                       idt_sig={"HS": "HS256"}.get(r["idt_fam"], "RS256"),
+                      idt_enc=None if r["idt_enc_fam"] is None else ("RSA-OAEP", "A128GCM"),
                       ui_sig=None if r["ui_fam"] is None else {"HS": "HS256"}.get(r["ui_fam"], "RS256"),
                       ui_enc=None if r["ui_enc_fam"] is None else ({"KW": "A128KW"}.get(r["ui_enc_fam"], "RSA-OAEP"), "A128GCM"))
         return not py_limits(c, r["offline"], T, r["claims"])
@@ -675,10 +719,12 @@ def limit_matrix(rng, T):
         add("limit:mode", rt="code", rm="fragment", rp_all_rts=all_rts)
         add("limit:mode", rt="id_token", rm="query", rp_all_rts=all_rts)
         add("limit:mode", rt="code id_token", rm="query", rp_all_rts=all_rts)
+        add("limit:mode", rt="code id_token token", rm="query", rp_all_rts=all_rts)
+        add("limit:mode", rt="token", rm="query", rp_all_rts=all_rts)
     for a in hs:
         for rt in T["rt"]:
             add("limit:hs_idt", rt=rt, idt_sig=a)
-        for rt in ("code", "code id_token"):
+        for rt in [t for t in T["rt"] if t != "id_token"]:
             add("limit:hs_ui", rt=rt, ui_sig=a)
     add("neighbour:hs_ui-without-userinfo", rt="id_token", ui_sig=hs[0])
     for a in kw_algs:
@@ -686,8 +732,10 @@ def limit_matrix(rng, T):
         add("neighbour:kw-32", ui_enc=(a, rng.choice(T["ui_enc_enc"])), secret_len=32)
     add("neighbour:kw-without-userinfo", rt="id_token", ui_enc=(kw_algs[0], T["ui_enc_enc"][0]), secret_len=56)
     for tr in ("request_uri", "par"):
-        for rt in ("id_token", "code id_token"):
+        for rt in [t for t in T["rt"] if "id_token" in t.split(" ")]:
             add("limit:byref_nonce", rt=rt, transport=tr)
+        for rt in ("token", "code token"):
+            add("neighbour:byref-without-id-token", rt=rt, transport=tr)
         add("limit:byref_consent", offline=True, transport=tr)
         add("neighbour:byref-code", transport=tr)
     for rt in ("id_token", "code id_token"):
@@ -707,12 +755,23 @@ def limit_matrix(rng, T):
     for a in T["auth"]:
         if a.startswith("bearer"):
             add("negotiation:auth-fallback", auth=a)
-    add("finding:idt_enc", rt="id_token", idt_enc=(T["idt_enc_alg"][1], T["idt_enc_enc"][0]))
-    add("finding:idt_enc", rt="code", idt_enc=(T["idt_enc_alg"][6], T["idt_enc_enc"][3]))
+    for i, rt in enumerate(T["rt"]):
+        add("limit:idt_enc", rt=rt, idt_enc=(T["idt_enc_alg"][(3 * i + 1) % len(T["idt_enc_alg"])],
+                                             T["idt_enc_enc"][i % len(T["idt_enc_enc"])]))
     # explicit response_mode = the default one (the pick_redirect_uri repair)
     add("repair:explicit-default-mode", rt="code", rm="query")
     add("repair:explicit-default-mode", rt="id_token", rm="fragment")
     add("repair:explicit-default-mode", rt="code id_token", rm="fragment", rp_all_rts=True)
+    return jobs
+
+
+def response_type_coverage(rng, T):
+    """at least one full flow per response type both halves can be configured with x {plain, request object by value}"""
+    jobs = []
+    for rt in T["rt"]:
+        for tr in ("plain", "request"):
+            jobs.append(make_job(rng, base_cell(rt=rt, transport=tr, rp_all_rts=(tr == "request")), offline=False,
+                                 kind="response-type:" + rt.replace(" ", "+")))
     return jobs
 
 
@@ -832,7 +891,7 @@ def run(ctx):
     rng = ctx.rng
     T = tables()
     prepare_keys()
-    jobs = fixed_witnesses() + limit_matrix(rng, T)
+    jobs = fixed_witnesses() + response_type_coverage(rng, T) + limit_matrix(rng, T)
     rows = pairwise_rows(rng, T)
     jobs += concretise(rng, rows, T)
     if not ctx.quick:
